@@ -210,3 +210,85 @@ Example C04_ex_orig_none :
   orig (tr (reach 0 3 [Inject; Fwd 1; Inject])) 3 = None /\
   orig (tr (reach 0 3 [Inject; Fwd 1; Inject])) 2 = Some 1.
 Proof. vm_compute. split; reflexivity. Qed.
+
+(* ------------------------------------------------------------------ *)
+(* NEW packets need no aged-out qualifier (Inj/InjFresh.v).
+
+   A new packet is an endpoint ID [o] above the tracker's start value p0 (last_seen_id)
+   and above every endpoint ID forwarded so far - the normal, in-order case.  Whatever the
+   window size m (0 included) and however many injections have aged out of the deque, its
+   wire ID w = eff o
+     - is exactly o + (number of injections ever made),
+     - is above the highest wire ID seen, hence
+     - is not an ID the proxy EVER used for an injected packet (aged out or not),
+     - was never on the wire before (forwarded or injected),
+     - is above everything the tracker has forgotten (so every qualified theorem above
+       applies to it), and
+     - is strictly above the wire ID every earlier forwarded packet got when it was
+       forwarded (strictly order-preserving and injective w.r.t. the whole past).
+   No [above_evicted] hypothesis. *)
+From HV Require Import Inj.InjFresh.
+
+Theorem C04_new_packet_fresh : forall p0 m h o,
+  let g := reach p0 m h in
+  p0 < o ->
+  (forall o', In (Fwd o') h -> o' < o) ->
+  let w := eff (tr g) o in
+  w = o + Z.of_nat (length (jall g)) /\
+  pbase (tr g) < w /\
+  ~ In w (jall g) /\
+  ~ In w (seen g) /\
+  above_evicted g w /\
+  (forall h1 o1 h2, h = h1 ++ Fwd o1 :: h2 -> eff (tr (reach p0 m h1)) o1 < w).
+Proof. exact new_packet_fresh. Qed.
+Print Assumptions C04_new_packet_fresh.
+
+(* so for a new packet the refinement of the abstract order isomorphism is unqualified too:
+   w is THE o-th integer outside the set of all IDs ever injected, equals the specification
+   function E, and translates back to o *)
+Theorem C04_new_packet_refines : forall p0 m h o,
+  let g := reach p0 m h in
+  p0 < o ->
+  (forall o', In (Fwd o') h -> o' < o) ->
+  nth_free (jall g) o (eff (tr g) o) /\
+  eff (tr g) o = E (jall g) o /\
+  orig (tr g) (eff (tr g) o) = Some o.
+Proof. exact new_packet_refines. Qed.
+Print Assumptions C04_new_packet_refines.
+
+(* the invariant behind it, at every reachable state: the highest wire ID seen is the highest
+   endpoint ID forwarded so far ([hmax]: p0 when none) plus the number of injections ever made,
+   and the first endpoint ID above it translates to exactly pbase+1 *)
+Theorem C04_pbase_is_newest_plus_injections : forall p0 m h,
+  let g := reach p0 m h in
+  pbase (tr g) = hmax p0 h + Z.of_nat (length (jall g)) /\
+  eff (tr g) (hmax p0 h + 1) = pbase (tr g) + 1.
+Proof. exact pbase_is_hmax_plus_injections. Qed.
+Print Assumptions C04_pbase_is_newest_plus_injections.
+
+(* the hypothesis p0 < o is needed: an ID at or below last_seen_id can land on an injected ID
+   (InjectionTracker(0, maxlen=0): inject -> 1, then ID 0 translates to 1) *)
+Theorem C04_new_packet_below_start_refuted :
+  exists p0 m h o,
+    let g := reach p0 m h in
+    (forall o', In (Fwd o') h -> o' < o) /\ ~ p0 < o /\ In (eff (tr g) o) (jall g).
+Proof. exact new_packet_needs_start_bound. Qed.
+Print Assumptions C04_new_packet_below_start_refuted.
+
+(* non-vacuity: window 1, three injections, two of them aged out (2 and 3); packet 3 is new
+   and gets 3 + 3 = 6; the OLD packet 1 at the same state re-translates to 3, an aged-out
+   injected ID - the qualifier is needed for old IDs only *)
+Definition ex_h3 : list op := [Fwd 1; Inject; Inject; Fwd 2; Inject].
+
+Example C04_ex_new_packet :
+  let g := reach 0 1 ex_h3 in
+  (0 < 3 /\ forall o', In (Fwd o') ex_h3 -> o' < 3) /\
+  evicted g = [2; 3] /\ inj (tr g) = [5] /\ pbase (tr g) = 5 /\ hmax 0 ex_h3 = 2 /\
+  eff (tr g) 3 = 6 /\ seen g = [5; 4; 3; 2; 1] /\
+  eff (tr g) 1 = 3 /\ In (eff (tr g) 1) (jall g).
+Proof.
+  cbn zeta. split.
+  - split; [reflexivity|]. intros o' H. cbn in H.
+    destruct H as [H|[H|[H|[H|[H|[]]]]]]; try discriminate H; injection H as <-; reflexivity.
+  - vm_compute. repeat split. right. left. reflexivity.
+Qed.
